@@ -41,7 +41,6 @@ void* run(void* a) {
   return nullptr;
 }
 void reset() {
-  if (getenv("NESTING_NO_STACKNORM")) return;
   pthread_barrier_init(&g_bar, nullptr, kNorm + 1);
   for (int i = 0; i < kNorm; i++) {
     pthread_mutex_init(&g_slot[i].gate, nullptr);
